@@ -202,6 +202,22 @@ let op_hm (args : string list) : string =
         | _ -> ()) args;
   String.concat " " (List.rev !out)
 
+
+(* threats <fen> : number of quiet, non-checking moves m of the side to move after which the opponent (not in check, with
+   at least 13 legal moves) faces a mate-in-one threat (found by giving the move back to the mover) *)
+let op_threats (fen : string) : string =
+  with_fen fen (fun p ->
+      let n = ref 0 in
+      List.iter (fun m ->
+          if not (M.is_capture p m) then begin
+            let q = M.make_move p m in
+            if not (M.in_check q.M.brd q.M.stm) && List.length (M.legal_moves q) >= 13 then begin
+              let q' = { q with M.stm = (match q.M.stm with M.White -> M.Black | M.Black -> M.White); M.ep = None } in
+              if List.exists (fun m1 -> M.checkmate (M.make_move q' m1)) (M.legal_moves q') then incr n
+            end
+          end) (M.legal_moves p);
+      string_of_int !n)
+
 (* ---------- game ops: "<op> <fen> | m1 m2 ..." ; one observation per position, joined by " ; " ---------- *)
 let split_game (rest : string) : string * string list =
   match String.index_opt rest '|' with
@@ -688,6 +704,7 @@ let dispatch (line : string) : string =
      | "legal" -> op_legal (rest_after line 1)
      | "valid" -> op_valid (rest_after line 1)
      | "mate" -> op_mate args line
+     | "threats" -> op_threats (rest_after line 1)
      | "hm" -> op_hm args
      | "egeval" -> op_egeval (rest_after line 1)
      | "s2s" -> op_s2s args
